@@ -207,13 +207,16 @@ class Expect:
 
 # --- one instance -------------------------------------------------------------------------------------
 class Instance:
-    def __init__(self, cname, role, rootkind, meth, operand="plain"):
+    def __init__(self, cname, role, rootkind, meth, operand="plain", buffered=False):
         self.cname, self.role, self.rootkind, self.meth, self.operand = cname, role, rootkind, meth, operand
+        self.buffered = buffered       # C05: the same obligations with the buffer's logical store as the resource
 
     def label(self, fi):
         r = self.role if self.role == "root" else f"nested-in-{self.rootkind}"
         if self.operand != "plain":
             r += "+synced-operand"
+        if self.buffered:
+            r += "+buffered"
         return f"{self.cname}.{self.meth}@{fi.qualname}/{r}"
 
 
@@ -261,12 +264,30 @@ def run_instance(eng, prover, inst, props):
         raise Unsupported(f"{inst.cname}.{inst.meth} does not resolve to a function")
     fi = r
     base = inst.label(fi)
-    # property-level preconditions: quiescent, unbuffered (C05 handles buffered mode)
+    # property-level preconditions: quiescent; unbuffered - or, for the C05 instances, buffered with the buffer
+    # invariants (the effective store is then the logical content of the root's file)
     st.assume(s.susp0 == 0)
-    if s.buffered:
+    buffered = getattr(inst, "buffered", False)
+    if buffered:
+        from props import buffers as PB
+        PB.buffer_inv(eng, s, st, s.root)
+        st.ghost["skolem_files"] = [s.other_file]
+        rrec = st.rec(s.root)
+        st.assume(z3.Or(as_int(st.rec(rrec.fields["buffered"]).fields["_count"]) > 0,
+                        as_int(st.rec(st.statics[(rrec.cls.name, "_buffer_context")]).fields["_count"]) > 0))
+    elif s.buffered:
         for a, rec in st.objs.items():
             if rec.tag.startswith("buffered:") or rec.tag.startswith("bufctx:"):
                 st.assume(as_int(rec.fields["_count"]) == 0)
+
+    def store(state):
+        """The effective store at the root's resource: the resource - or the buffer's logical content."""
+        if not buffered:
+            return state.sel("Res", rid)
+        from contracts.buffers import Buf
+        return Buf(eng, state, state.rec(s.root).cls.name).logical(rid)
+
+    same = pyeq if buffered else (lambda u, v: u == v)
     fam = scn.family(eng, s.cls)
     type_facts(eng, st, set([s.cls, s.rootcls, fam[0], fam[1]]))
     a, vals, kw = symbolic_args(spec, st)
@@ -291,7 +312,7 @@ def run_instance(eng, prover, inst, props):
         exp.raises = [("AttributeError", c) for (e, c) in exp.raises]
     outs = run_with_kwargs(eng, st, fi, [s.self_] + vals, kw)
     V0 = pre.sel("View", n)
-    R0 = pre.sel("Res", rid)
+    R0 = store(pre)
     npaths = 0
     for (x, res) in outs:
         npaths += 1
@@ -349,6 +370,9 @@ def run_instance(eng, prover, inst, props):
             if "C17" in props:
                 prover.goal(f"C17/{base}/frame:no-resource-effect", x,
                             z3.And(x.g["Res"] == pre.g["Res"], x.g["Wr"] == pre.g["Wr"]), info=ctx)
+                if buffered and not faulty:
+                    prover.goal(f"C17/{base}/frame:logical-content-kept", x,
+                                z3.Implies(R0 != VAbsent, same(store(x), R0)), info=ctx)
                 prover.structural(f"C17/{base}/no-save-event", not any(e[0] == "save" for e in x.events), x, ctx)
             if "C02" in props and not faulty:
                 ok = bool(loads) and (first_access is None or loads[0][0] < first_access)
@@ -361,7 +385,7 @@ def run_instance(eng, prover, inst, props):
 
         # ---- mutators
         if "C01" in props and normal:
-            prover.goal(f"C01/{base}/ensures:stored", x, x.sel("Res", rid) == VendRoot, info=ctx)
+            prover.goal(f"C01/{base}/ensures:stored", x, same(store(x), VendRoot), info=ctx)
         if "C03" in props and not faulty:
             check_result_and_errors(eng, prover, "C03", base, x, res, exp, Vload, pre, ctx, s, a)
             if normal:
@@ -375,7 +399,7 @@ def run_instance(eng, prover, inst, props):
                     prover.goal(f"C03/{base}/raises:content-unchanged", x,
                                 z3.And(Vend == Vload, VendRoot == VloadRoot), info=ctx)
                     prover.goal(f"C03/{base}/raises:backend-unchanged", x,
-                                z3.Or(x.sel("Res", rid) == VloadRoot, x.sel("Res", rid) == R0), info=ctx)
+                                z3.Or(same(store(x), VloadRoot), same(store(x), R0)), info=ctx)
         if "C04" in props and normal:
             # applied to the resource content AT THE TIME OF THE CALL (which must exist and hold the receiver's
             # position): view'(root) ~ put_in(R0, self, op(sub_of(R0, self)))
@@ -499,9 +523,13 @@ def as_bool(v):
 def run_task(eng, prover, task, out):
     """Pool entry: all requested methods of one (class, role) scene."""
     props = set(task["props"])
-    insts = [Instance(task["cname"], task["role"], task["rootkind"], m) for m in task["methods"]]
-    insts += [Instance(task["cname"], task["role"], task["rootkind"], m, "synced") for m in task["methods"]
-              if m in COMPARISONS]
+    bufd = bool(task.get("buffered"))
+    insts = [Instance(task["cname"], task["role"], task["rootkind"], m, buffered=bufd) for m in task["methods"]]
+    if not bufd:
+        # (comparisons with ANOTHER synced object are verified in unbuffered mode only: in buffered mode the second
+        # object may live in another class's buffer, whose invariants the scene does not state)
+        insts += [Instance(task["cname"], task["role"], task["rootkind"], m, "synced") for m in task["methods"]
+                  if m in COMPARISONS]
     for inst in insts:
         m = inst.meth
         try:
